@@ -329,7 +329,7 @@ package actor
 //@   ensures[C04.tryrestart.log-prefix] loglen >= entry(loglen) && forall(k, 0 <= k && k < entry(loglen) ==> log[k] == entry(log)[k])
 
 //@ func (*process).Start()
-//@   props C04 C05 C13 C12 C06 C02
+//@   props C04 C05 C13 C12 C06 C02 C07
 //@   requires procInv(p) && curproc == p && budgetInv(p) && !afterCrash && mbufOK(p)
 //@   requires[C04.start.no-live-incarnation] phase == 3
 //@   requires[C02.start.on-owner-thread] (tok || startPerm) && !stoppedByMe
@@ -802,7 +802,7 @@ package actor
 //@   modifies heap except private, log, loglen
 //@   ghost at call add#1 before: assert[C11.request.registers-response] arg0 == e.Registry && loglen == entry(loglen)
 //@   ghost at call SendWithSender#1 before: assert[C11.request.sends-after-registering-with-response-as-sender] arg1 == pid && arg2 == msg && arg3 == resp.pid && loglen > entry(loglen)
-//@   ensures[C11.request.response] result != nil && fresh(result) && result.engine == e
+//@   ensures[C11.request.response] result != nil && fresh(result) && result.engine == e && result.pid != nil
 
 //@ func (*Context).Sender()
 //@   props C11 C20
@@ -909,3 +909,9 @@ package actor
 //@   requires opts != nil
 //@   modifies opts.MaxRestarts
 //@   ensures[C06.config.budget-is-the-value-asked-for] n >= 0 ==> opts.MaxRestarts == n
+
+//@ func (*Engine).Address()
+//@   props C19
+//@   requires e != nil
+//@   pure
+//@   ensures result == e.address
